@@ -80,6 +80,7 @@ func (e *Env) Do(req M) string {
 	e.hist = append(e.hist, req)
 	switch f {
 	case "reset":
+		e.FreshBase()
 		e.Now = time.Unix(0, fI(req, "now")).UTC()
 		e.SelfH = int64(parseH(fS(req, "self")).RevisionHeight)
 		e.Clients = nil
